@@ -8,14 +8,11 @@ import UnytProofs.Lemmas.C14Chunk07  -- build order only: at most four chunks ar
 namespace Unyt.C14
 
 /-- every listed name of chunk 11 (four slices of 64 rows) is read by the string route and by the
-    three attribute routes as the independent reference reads it (guard: word-prefixed °C) -/
+    three attribute routes as the independent reference reads it -/
 theorem names_slice_11_0 : namesSliceOk 11 0 = true := by decide +kernel
 theorem names_slice_11_1 : namesSliceOk 11 1 = true := by decide +kernel
 theorem names_slice_11_2 : namesSliceOk 11 2 = true := by decide +kernel
 theorem names_slice_11_3 : namesSliceOk 11 3 = true := by decide +kernel
-
-/-- every excluded name of chunk 11 really is unusable as a unit string -/
-theorem exclusions_chunk_11 : exclusionsChunkOk 11 = true := by decide +kernel
 
 /-- prefix spellings 3·11 … 3·11+2 (symbols, then word forms) are rejected on every
     non-prefixable spelling (three slices of 110 spelling rows) -/
